@@ -703,8 +703,16 @@ def validate_values(nodes, constants):
             for member in node.members:
                 check("enumerator value", node.name, member.value)
         elif isinstance(node, Union):
+            values = set()
             for member in node.members:
                 check("discriminator", node.name, member.discriminator)
+                try:
+                    value = to_int(member.discriminator, constants)
+                except calc.ParseError:
+                    value = member.discriminator
+                if value in values:
+                    raise ModelError("duplicate discriminator value '%s' in %s" % (member.discriminator, node.name))
+                values.add(value)
 
 
 def validate_sizer_types(nodes):
